@@ -242,11 +242,23 @@ func c13Idle(rc *simrt.RunCtx) {
 		p.closeAll()
 		return
 	}
+	// sometimes the transport's write call returns late - after the packet,
+	// and possibly its acknowledgement, have already travelled
+	var lag time.Duration
+	if rc.Pick(3, "net.sendlag") == 0 {
+		lag = time.Duration(1+rc.Pick(int(3*lat/time.Millisecond)+1, "net.sendlagms")) * time.Millisecond
+		if lag > tkC.pong/2 {
+			lag = tkC.pong / 2
+		}
+		rc.Fault("slow-write-call")
+	}
 	np.c2s.mu.Lock()
 	c2s.latMin, c2s.latMax = lat, lat
+	np.c2s.sendLag = lag
 	np.c2s.mu.Unlock()
 	np.s2c.mu.Lock()
 	s2c.latMin, s2c.latMax = lat, lat
+	np.s2c.sendLag = lag
 	np.s2c.mu.Unlock()
 	var wg sync.WaitGroup
 	for _, g := range []*GoBackNConn{cli, srv} {
@@ -269,7 +281,7 @@ func c13Idle(rc *simrt.RunCtx) {
 	if lim := 2500 * minPing; lim < total {
 		total = lim
 	}
-	rc.Sample("N=%d client[%v] server[%v] one-way latency %v idle for %v", n, tkC, tkS, lat, total)
+	rc.Sample("N=%d client[%v] server[%v] one-way latency %v write-call lag %v idle for %v", n, tkC, tkS, lat, lag, total)
 	start := rc.Now()
 	msgs := 0
 	for rc.Now()-start < total {
